@@ -181,7 +181,15 @@ pub fn gen_filter(rng: &mut Rng, depth: usize) -> Value {
 pub fn gen_agg(rng: &mut Rng, depth: usize, level: usize, top_hits: bool, st: &mut AggStats) -> Value {
   let bucket = depth > 1 && rng.chance(3, 5) || (depth == 1 && rng.chance(2, 5));
   let mut v = if bucket {
-    match rng.below(5) {
+    match rng.below(6) {
+      5 => {
+        note(st, "rare_terms", level);
+        let mut m = json!({"type": "rare_terms", "field": *rng.pick(&["tag", "cats"][..]), "max_doc_count": 1 + rng.below(4)});
+        if rng.chance(1, 2) {
+          m["size"] = json!(1 + rng.below(4));
+        }
+        m
+      }
       0 | 1 => {
         note(st, "terms", level);
         let field = *rng.pick(&["tag", "cats"][..]);
